@@ -181,6 +181,16 @@ def run_pairs(acc, nt, block, nblocks):
                     acc.ev()
                     if o[0] != "ok" or not np.allclose(np.asarray(o[1], dtype=float), src * w, rtol=1e-12, atol=0) or dict(q2._units) != {b: 1}:
                         acc.violation(["unit-pair", "ito[array]", "wrong-factor", nt], case, (src * w).tolist(), o[1] if o[0] != "ok" else np.asarray(o[1]).tolist())
+                    # INTEGER arrays converted in place: the result cannot in general be held by the array — the conversion
+                    # either gives the right numbers or is refused, it never stores something else
+                    isrc = np.array([1500, 2500, 250, -7])
+                    for api, fn in (("ito[int array]", lambda: (lambda qi: (qi.ito(b), qi.magnitude)[1])(ureg.Quantity(isrc.copy(), a))),
+                                    ("convert[int array, inplace]", lambda: ureg.convert(isrc.copy(), a, b, inplace=True)),
+                                    ("ito_root_units[int array]", lambda: (lambda qi: (qi.ito_root_units(), qi.to(b).magnitude)[1])(ureg.Quantity(isrc.copy(), a)))):
+                        acc.ev()
+                        o = conv_out(fn)
+                        if o[0] == "ok" and not np.allclose(np.asarray(o[1], dtype=float), isrc * w, rtol=1e-12, atol=0):
+                            acc.violation(["unit-pair", api, "wrong-factor", nt], case, (isrc * w).tolist(), np.asarray(o[1]).tolist())
         # identity on every unit, int magnitude stays exact in exact registries
         for a in us:
             acc.ev()
